@@ -92,6 +92,7 @@ extern "C"
             r.readonly = sqlite3_stmt_readonly(*stmt) != 0;
             r.faulted = false;
             r.rc = -1;
+            r.is_rollback = sql && strncasecmp(sql, "ROLLBACK", 8) == 0;
             if (g_logging)
                 r.sql = sql ? std::string(sql, n >= 0 ? strnlen(sql, (size_t)n) : strlen(sql)) : std::string();
             g_stmts.push_back(std::move(r));
@@ -104,6 +105,15 @@ extern "C"
     {
         auto it = g_index.find(stmt);
         shim::stmt_rec* rec = it == g_index.end() ? nullptr : &g_stmts[it->second - 1];
+        if (rec && rec->faulted)
+            return rec->rc;  // a failed statement keeps failing, however often it is stepped
+        if (rec && g_fault_k > 0 && rec->k == g_fault_k && rec->rc == -1 && rec->is_rollback)
+        {
+            // ROLLBACK is the recovery action itself: "it fails without effect" would mean that
+            // recovery is impossible by construction, which says nothing about the library.  The
+            // fault does not fire on it (the sweep ends there).
+            g_fault_k = 0;
+        }
         if (rec && g_fault_k > 0 && rec->k == g_fault_k && rec->rc == -1)
         {
             // Fail the statement as a whole, without executing it (SQLite's statement
